@@ -15,7 +15,7 @@ from common import Check, Drv, quiet
 SCALAR_W = ["set_val", "val_setter", "attr_assign", "ctor_init", "ctor_init_obj"]
 SCALAR_R = ["get_val", "val", "attr"]
 LIST_W = ["append", "setitem", "init", "attr_assign", "extend"]
-LIST_R = ["getitem", "iter"]
+LIST_R = ["getitem", "iter", "sum", "product"]   # (of a one-element list: the element's value)
 
 
 def make_classes(vsc, w, s):
@@ -82,6 +82,10 @@ def list_case(vsc, T, O, o, wp, rp, v):
         o.l.extend([v])
     if rp == "getitem":
         return int(obj.l[0])
+    if rp == "sum":
+        return int(obj.l.sum)
+    if rp == "product":
+        return int(obj.l.product)
     r = [int(x) for x in obj.l]
     assert len(r) == 1, r
     return r[0]
